@@ -323,3 +323,15 @@ proof fn lemma_all_found_no_table(z: TimeZoneRef, q: FindQuery, rs: Seq<FoundDat
         all_found(z, q, rs),
 {
 }
+
+// C06: with results ascending by instant, the first and the last entry are the true extremes
+proof fn prop_c06_extremes(rs: Seq<FoundDateTimeKind>, j: int)
+    requires
+        entries_ascending(rs),
+        all_kind_inv(rs),
+        0 <= j < rs.len(),
+    ensures
+        entry_earliest(rs[0]).unix_time <= entry_key(rs[j]),
+        entry_key(rs[j]) <= entry_key(rs[rs.len() - 1]),
+{
+}
